@@ -98,30 +98,31 @@ Print Assumptions C12_multi_duration.
 
 (* modify(): the flattened result is the original sequence with flip angles scaled and, after every item of
    positive duration, an evolution (E, or P when only g is given) of that duration and own duration 0 —
-   for every sequence in which equal object identities mean equal operators (memo per object) *)
+   for every sequence in which equal object identities mean equal operators (memo per object);
+   kw = "some keyword parameter was passed" (without any, modify returns its argument) *)
 Theorem C12_modify_flat (S : ScalOps) (par : Type) (pscale : par -> par -> par) (is_one : par -> bool)
-    (pbig pzero : par) (l : list (tree S par)) (P : mparams par) :
-  ids_consistent S par (flat_seq l) ->
-  flat_seq (modify_model S par pscale is_one pbig pzero l P) =
+    (pbig pzero : par) (l : list (tree S par)) (P : mparams par) (kw : bool) :
+  ids_consistent S par (flat_seq l) -> (kw = false -> has_params par P = false) ->
+  flat_seq (modify_model S par pscale is_one pbig pzero l P kw) =
   insert_E S par pscale is_one pbig pzero (flat_seq l) P.
-Proof. exact (modify_flat S par pscale is_one pbig pzero l P). Qed.
+Proof. exact (modify_flat S par pscale is_one pbig pzero l P kw). Qed.
 Print Assumptions C12_modify_flat.
 
 Theorem C12_modify_equiv (S : ScalOps) (par : Type) (mkT : par -> par -> op S)
     (mkE : Qc -> par -> par -> par -> op S) (mkP : Qc -> par -> op S)
     (pscale : par -> par -> par) (is_one : par -> bool) (pbig pzero : par)
-    (l : list (tree S par)) (P : mparams par) (ov : overrides S) (b : bstate S) :
-  ids_consistent S par (flat_seq l) ->
-  simulate_model S par mkT mkE mkP (modify_model S par pscale is_one pbig pzero l P) ov b =
+    (l : list (tree S par)) (P : mparams par) (kw : bool) (ov : overrides S) (b : bstate S) :
+  ids_consistent S par (flat_seq l) -> (kw = false -> has_params par P = false) ->
+  simulate_model S par mkT mkE mkP (modify_model S par pscale is_one pbig pzero l P kw) ov b =
   simulate_model S par mkT mkE mkP (map Leaf (insert_E S par pscale is_one pbig pzero (flat_seq l) P)) ov b.
-Proof. exact (modify_equiv S par mkT mkE mkP pscale is_one pbig pzero l P ov b). Qed.
+Proof. exact (modify_equiv S par mkT mkE mkP pscale is_one pbig pzero l P kw ov b). Qed.
 Print Assumptions C12_modify_equiv.
 
 Theorem C12_modify_times (S : ScalOps) (par : Type) (pscale : par -> par -> par) (is_one : par -> bool)
-    (pbig pzero : par) (l : list (tree S par)) (P : mparams par) :
-  ids_consistent S par (flat_seq l) ->
-  get_adc_times (modify_model S par pscale is_one pbig pzero l P) = get_adc_times l.
-Proof. exact (modify_times S par pscale is_one pbig pzero l P). Qed.
+    (pbig pzero : par) (l : list (tree S par)) (P : mparams par) (kw : bool) :
+  ids_consistent S par (flat_seq l) -> (kw = false -> has_params par P = false) ->
+  get_adc_times (modify_model S par pscale is_one pbig pzero l P kw) = get_adc_times l.
+Proof. exact (modify_times S par pscale is_one pbig pzero l P kw). Qed.
 Print Assumptions C12_modify_times.
 
 (* every element returned by modify() keeps the duration of the operator it replaces; probes are kept *)
@@ -144,7 +145,7 @@ Example C12_nonvacuous :
   let l := [Leaf t; Node true [Leaf w; Leaf a]; Leaf w; Leaf a] in
   ids_consistent QIops Qc (flat_seq l) /\
   get_adc_times (modify_model QIops Qc Qcmult (Qc_eq_bool (Q2Qc 1)) (Q2Qc 10000000000) (Q2Qc 0) l
-                   (mkMP None (Some (Q2Qc 50)) None (Some (Q2Qc (1 # 2))))) = [Q2Qc 2; Q2Qc (7 # 2)] /\
+                   (mkMP None (Some (Q2Qc 50)) None (Some (Q2Qc (1 # 2)))) true) = [Q2Qc 2; Q2Qc (7 # 2)] /\
   fst (simulate_model QIops Qc (fun _ _ => OWait) (fun _ _ _ _ => OSpoil) (fun _ _ => OWait) l []
          [@init QIops (qr 2 1)]) = @Single QIops [[qi 0 1 2 1]; [qi 0 1 2 1]].
 Proof.
